@@ -95,6 +95,8 @@ var kinds = []kindT{
 	// a fresh pointer on every use: two occurrences are deeply equal but not identical
 	{"freshptr", func() interface{} { return &myPtrStruct{B: 9} }},
 	{"ifacestruct", func() interface{} { return myIfaceStruct{V: []int{1, 2}} }},
+	// undecoded JSON kept as bytes: a typed byte slice like any other, whatever the bytes spell
+	{"rawjson", func() interface{} { return json.RawMessage(`{"a":{"b":1},"b":[1,2],"id":7}`) }},
 	{"mapslice", func() interface{} { return theMapSlice }},
 	{"strslice", func() interface{} { return theStrSlice }},
 	{"ptriface", func() interface{} { return ptrIface }},
